@@ -10,3 +10,4 @@ import LyModel.Props.C01Lyb
 import LyModel.Props.C16
 import LyModel.Props.C11
 import LyModel.Props.C11Range
+import LyModel.Props.C08
